@@ -468,6 +468,13 @@ func (x *explorer) exec(st *state) {
 			addr := x.termOf(st, fr, ins.Addr)
 			val := x.rawOf(st, fr, ins.Val)
 			st.mem[addr.Key()] = val
+			if fa, ok := ins.Addr.(*ssa.FieldAddr); ok {
+				// a field with a trivial getter: the getter on the same object now returns the stored value
+				if g := x.P.fieldGetters[namedKey(fa.X.Type())+"."+fieldNameOf(fa.X.Type(), fa.Field)]; g != "" {
+					root := addrRoot(addr)
+					st.mem["getter:"+call("."+g, root).Key()] = val
+				}
+			}
 			if addr.Op != "cell" {
 				kind := "store"
 				if r := addrRoot(addr); r.Op == "cell" || r.Op == "make" {
@@ -744,7 +751,7 @@ func (x *explorer) eval(st *state, fr *frame, v ssa.Value) *Term {
 		return field(a, fieldName(v.X.Type(), v.Field))
 	case *ssa.FieldAddr:
 		a := x.termOf(st, fr, v.X)
-		return &Term{Op: "addr", Name: fieldName(v.X.Type(), v.Field), Args: []*Term{a}, Type: v.Type()}
+		return &Term{Op: "addr", Name: fieldName(v.X.Type(), v.Field), Args: []*Term{a}, Type: v.Type(), Embedded: fieldEmbedded(v.X.Type(), v.Field)}
 	case *ssa.IndexAddr:
 		a := x.termOf(st, fr, v.X)
 		i := x.termOf(st, fr, v.Index)
@@ -848,6 +855,16 @@ func (x *explorer) eval(st *state, fr *frame, v ssa.Value) *Term {
 
 func typeShort(t types.Type) string {
 	return types.TypeString(t, func(p *types.Package) string { return p.Name() })
+}
+
+func fieldEmbedded(t types.Type, i int) bool {
+	if p, ok := t.Underlying().(*types.Pointer); ok {
+		t = p.Elem()
+	}
+	if s, ok := t.Underlying().(*types.Struct); ok && i < s.NumFields() {
+		return s.Field(i).Embedded()
+	}
+	return false
 }
 
 func fieldName(t types.Type, i int) string {
@@ -1291,6 +1308,11 @@ func (x *explorer) opaque(st *state, fr *frame, name string, obj *types.Func, st
 		pkg = obj.Pkg().Path()
 	} else if static != nil {
 		pkg = fnPkgPath(static)
+	}
+	// a method promoted from an embedded struct is called on the address of the embedded
+	// field: the receiver object is the enclosing one
+	for recv != nil && recv.Op == "addr" && recv.Embedded && len(recv.Args) == 1 {
+		recv = recv.Args[0]
 	}
 	all := args
 	if recv != nil {
